@@ -14,7 +14,7 @@ from ref import cfdp as R
 from units import cfdp_pdu as U
 
 PROPERTY = "C05"
-LEVEL = "exploration"
+LEVEL = "model_checking"  # bounded-exhaustive enumeration of executions against a reference model (DESIGN.md 1, 2.1)
 EXHAUSTIVE = True
 RULE = (
     "case = one header (7 flag bits, ID width, sequence width, data field length, source / sequence / destination "
